@@ -109,6 +109,47 @@ pub fn format_lazy(v: &LibVal, pic: &str) -> Result<FmtOut, String> {
     })
 }
 
+fn fmt_spec<T: std::fmt::Display>(r: Result<T, Error>, out: &mut Vec<FmtOut>) {
+    match r {
+        Err(e) => out.push(FmtOut::BadPicture(e)),
+        Ok(lazy) => {
+            macro_rules! one {
+                ($($spec:tt)*) => {{
+                    let mut s = String::new();
+                    out.push(match write!(&mut s, $($spec)*, lazy) {
+                        Ok(()) => FmtOut::Text(s),
+                        Err(_) => FmtOut::FormatErr,
+                    });
+                }};
+            }
+            one!("{:10}");
+            one!("{:>30}");
+            one!("{:<5}");
+            one!("{:^300}");
+            one!("{:.4}");
+            one!("{:.4000}");
+            one!("{:*>140.135}");
+            one!("{:08}");
+        }
+    }
+}
+
+/// `T::format(picture)` written with several width / precision / alignment specs.
+pub fn format_lazy_specs(v: &LibVal, pic: &str) -> Result<Vec<FmtOut>, String> {
+    guarded(|| {
+        let mut out = vec![];
+        match v {
+            LibVal::Date(x) => fmt_spec(x.format(pic), &mut out),
+            LibVal::Time(x) => fmt_spec(x.format(pic), &mut out),
+            LibVal::Ts(x) => fmt_spec(x.format(pic), &mut out),
+            LibVal::Ora(x) => fmt_spec(x.format(pic), &mut out),
+            LibVal::YM(x) => fmt_spec(x.format(pic), &mut out),
+            LibVal::DT(x) => fmt_spec(x.format(pic), &mut out),
+        }
+        out
+    })
+}
+
 /// `Formatter::try_new(picture)?.format(value, &mut String)`.
 pub fn format_direct(v: &LibVal, pic: &str) -> Result<FmtOut, String> {
     guarded(|| {
